@@ -210,3 +210,9 @@ func ddParseBody(body []byte, p *Payload, e *jsErrs, res *jsResolver, subs jsSub
 		}
 	}
 }
+
+// CanonDatadog returns the Tags and Host that ParseDatadog reports for a series flushed with these tags and this
+// source: the tags as they are (sorted), the source as host. For the harness's expected side.
+func CanonDatadog(tags []string, source string) (ctags []string, host string) {
+	return jsSorted(tags), source
+}
